@@ -951,4 +951,216 @@ theorem SL_of_TL (F : Nat) (Q : SProg Unit) (h : TL F Q) : SLfor F Q := by
   | top f hle => exact SL_top F f hle
   | inner f hle P hP => exact SL_inner F f hle (SL_top F f (by omega)) P hP
 
+/-! ## 5. The protocol, call by call -/
+
+/-- the program the next `ParseTokens` call runs -/
+def progOf (F : Nat) : Option Co → SProg Unit
+  | some (.waiting κ) => κ
+  | _ => S.topLoop F
+
+def statusOf : Fin Unit → Status
+  | .ret _ => .done
+  | .stop st => st
+
+theorem parseTokens_eq (F : Nat) (p : PSt) (h : p.co ≠ some .finalYield) :
+    p.parseTokens F = match run (progOf F p.co).erase p.pstate with
+      | (.ret _, s) => (.done, s.exprs, ⟨s.lex, s.exprs, none⟩)
+      | (.stop .more, s) => (.more, s.exprs, ⟨s.lex, s.exprs, (residual (progOf F p.co) p.pstate).map .waiting⟩)
+      | (.stop st, s) => (st, s.exprs, ⟨s.lex, s.exprs, some .finalYield⟩) := by
+  obtain ⟨lex, exprs, co⟩ := p
+  rcases co with _ | (κ | _)
+  · rfl
+  · rfl
+  · exact absurd rfl h
+
+theorem view_pstate (p : PSt) : view p.pstate = ⟨p.lex.toLexCore, p.lex.pending, p.exprs, p.lex.finished⟩ := by
+  simp [view, PSt.pstate, PState.runes, PState.willFinish]
+
+/-- `NewInput`/`EndInput` on a lexer that has read everything it was given -/
+theorem addNextStream_read (l : LexState) (c : List Char) (hp : l.pending = []) :
+    (l.addNextStream c).pending = c ∧ (l.addNextStream c).toLexCore = l.toLexCore ∧
+      (l.addNextStream c).stream.isSome = true ∧ (l.addNextStream c).finished = false := by
+  cases hst : l.stream with
+  | none =>
+    have hn : l.next.flatten = [] := by simpa [LexState.pending, hst] using hp
+    cases hnx : l.next with
+    | nil => simp [LexState.addNextStream, LexState.promote, hst, hnx, LexState.pending]
+    | cons n0 rest =>
+      rw [hnx] at hn
+      simp only [List.flatten_cons, List.append_eq_nil_iff] at hn
+      simp [LexState.addNextStream, LexState.promote, hst, hnx, LexState.pending, hn.1, hn.2]
+  | some st =>
+    have hst' : st = [] ∧ l.next.flatten = [] := by simpa [LexState.pending, hst] using hp
+    obtain ⟨rfl, hn⟩ := hst'
+    cases hnx : l.next with
+    | nil => simp [LexState.addNextStream, LexState.promote, hst, hnx, LexState.pending]
+    | cons n0 rest =>
+      rw [hnx] at hn
+      simp only [List.flatten_cons, List.append_eq_nil_iff] at hn
+      simp [LexState.addNextStream, LexState.promote, hst, hnx, LexState.pending, hn.1, hn.2]
+
+/-- **One `ParseTokens` call in the middle of a text.** The parser holds a program `Q` of the
+protocol; the lexer holds the piece `pending`; the parse of (piece ++ what is still to come), from
+this state, is `R` and is not an error. Then the call does not answer an error, and the state it
+leaves (new program, lexer, reply) is again one from which the parse of what is still to come is `R`. -/
+theorem call_step (F : Nat) (p' : PSt) (hco : p'.co ≠ some .finalYield) (hinv : p'.lex.stream.isSome = true)
+    (hfin : p'.lex.finished = false) (hTL : TL F (progOf F p'.co))
+    (more : List Char) (R : Fin Unit × View)
+    (hR : runA (progOf F p'.co).erase ⟨p'.lex.toLexCore, p'.lex.pending ++ more, p'.exprs, true⟩ = R)
+    (hne : R.1 ≠ .stop .err) :
+    (p'.parseTokens F).1 ≠ .err ∧ (p'.parseTokens F).2.2.co ≠ some .finalYield ∧
+    (p'.parseTokens F).2.2.lex.pending = [] ∧ TL F (progOf F (p'.parseTokens F).2.2.co) ∧
+    runA (progOf F (p'.parseTokens F).2.2.co).erase
+      ⟨(p'.parseTokens F).2.2.lex.toLexCore, more, (p'.parseTokens F).2.2.exprs, true⟩ = R := by
+  have hi : Inv p'.pstate := hinv
+  have hv := view_pstate p'
+  rw [hfin] at hv
+  have hvfin : (view p'.pstate).fin = false := by rw [hv]
+  obtain ⟨sl1, sl2, sl3⟩ := SL_of_TL F _ hTL (view p'.pstate)
+  rw [parseTokens_eq _ _ hco]
+  have hR' : runA (progOf F p'.co).erase
+      ⟨(view p'.pstate).core, (view p'.pstate).runes ++ more, (view p'.pstate).exprs, true⟩ = R := by
+    rw [hv]; exact hR
+  cases hs : suspendA (progOf F p'.co) (view p'.pstate) with
+  | none =>
+    exfalso
+    have := suspendA_none_append _ _ hvfin hs more true
+    rw [hR'] at this
+    apply hne
+    rw [this]
+    exact sl3 hs
+  | some x =>
+    obtain ⟨e, κ, v'⟩ := x
+    obtain ⟨q1, q2⟩ := resume_is_rest_of_run _ _ hvfin e κ v' hs
+    have q2' := q2 more true
+    rw [hR'] at q2'
+    cases e with
+    | false =>
+      obtain ⟨r1, r2, r3⟩ := residual_of_suspendA _ _ hi κ v' hs
+      cases hrun : run (progOf F p'.co).erase p'.pstate with
+      | mk fin s1 =>
+        rw [hrun] at r2 r3
+        have hfinm : fin = .stop .more := by
+          cases fin with
+          | ret a => simp [Fin.isMore] at r3
+          | stop st => cases st <;> simp_all [Fin.isMore]
+        subst hfinm
+        simp only [r1, Option.map_some]
+        have hruns : s1.lex.pending ++ s1.fut.flatten = [] := by
+          have : (view s1).runes = [] := by rw [r2]; exact q1
+          exact this
+        have hc : s1.lex.toLexCore = v'.core := by rw [← r2]; rfl
+        have he : s1.exprs = v'.exprs := by rw [← r2]; rfl
+        refine ⟨by simp, by simp, (List.append_eq_nil_iff.mp hruns).1, sl2 κ v' hs, ?_⟩
+        simp only [progOf, hc, he]
+        exact q2'.symm
+    | true =>
+      obtain ⟨⟨f, hf, rfl⟩, hrunA⟩ := sl1 κ v' hs
+      obtain ⟨w1, w2⟩ := run_view (progOf F p'.co).erase p'.pstate hi
+      rw [hrunA] at w1 w2
+      cases hrun : run (progOf F p'.co).erase p'.pstate with
+      | mk fin s1 =>
+        rw [hrun] at w1 w2
+        simp only at w1 w2
+        subst w1
+        have hruns : s1.lex.pending ++ s1.fut.flatten = [] := by
+          have : (view s1).runes = [] := by rw [w2]; exact q1
+          exact this
+        have hc : s1.lex.toLexCore = v'.core := by rw [← w2]; rfl
+        have he : s1.exprs = v'.exprs := by rw [← w2]; rfl
+        refine ⟨by simp, by simp, (List.append_eq_nil_iff.mp hruns).1, .top F (Nat.le_refl _), ?_⟩
+        simp only [progOf, hc, he]
+        rw [erase_topLoop] at q2' ⊢
+        rw [q2'] at hne
+        rw [runA_fuel_mono (f + 1) F hf _ hne]
+        exact q2'.symm
+
+/-- **The last `ParseTokens` call** (after `EndInput`): the call IS the rest of the parse. -/
+theorem final_step (F : Nat) (p' : PSt) (hco : p'.co ≠ some .finalYield) (hinv : p'.lex.stream.isSome = true)
+    (R : Fin Unit × View)
+    (hR : runA (progOf F p'.co).erase ⟨p'.lex.toLexCore, p'.lex.pending, p'.exprs, p'.lex.finished⟩ = R) :
+    (p'.parseTokens F).1 = statusOf R.1 ∧ (p'.parseTokens F).2.1 = R.2.exprs := by
+  have hi : Inv p'.pstate := hinv
+  obtain ⟨w1, w2⟩ := run_view (progOf F p'.co).erase p'.pstate hi
+  rw [view_pstate, hR] at w1 w2
+  rw [parseTokens_eq _ _ hco]
+  cases hrun : run (progOf F p'.co).erase p'.pstate with
+  | mk fin s1 =>
+    rw [hrun] at w1 w2
+    simp only at w1 w2
+    have he : s1.exprs = R.2.exprs := by rw [← w2]; rfl
+    rw [← w1]
+    cases fin with
+    | ret a => exact ⟨rfl, he⟩
+    | stop st => cases st <;> exact ⟨rfl, he⟩
+
+theorem deliverRest_eq (F : Nat) (R : Fin Unit × View) (hne : R.1 ≠ .stop .err) :
+    ∀ (rest : List (List Char)) (p : PSt) (tr : List Status),
+      p.co ≠ some .finalYield → p.lex.pending = [] → TL F (progOf F p.co) →
+      runA (progOf F p.co).erase ⟨p.lex.toLexCore, rest.flatten ++ eofPiece, p.exprs, true⟩ = R →
+      (p.deliverRest F tr rest).1.status = statusOf R.1 ∧ (p.deliverRest F tr rest).1.exprs = R.2.exprs := by
+  intro rest
+  induction rest with
+  | nil =>
+    intro p tr hco hp hTL hR
+    obtain ⟨a1, a2, a3, _⟩ := addNextStream_read p.lex eofPiece hp
+    have := final_step F p.endInput hco (show (p.lex.addNextStream eofPiece).stream.isSome = true from a3) R
+      (by
+        show runA (progOf F p.co).erase
+          ⟨(p.lex.addNextStream eofPiece).toLexCore, (p.lex.addNextStream eofPiece).pending, p.exprs, true⟩ = R
+        rw [a1, a2]; simpa using hR)
+    simpa [PSt.deliverRest] using this
+  | cons c rest ih =>
+    intro p tr hco hp hTL hR
+    obtain ⟨a1, a2, a3, a4⟩ := addNextStream_read p.lex c hp
+    have hR' : runA (progOf F (p.newInput c).co).erase
+        ⟨(p.newInput c).lex.toLexCore, (p.newInput c).lex.pending ++ (rest.flatten ++ eofPiece), (p.newInput c).exprs, true⟩ = R := by
+      simp only [PSt.newInput, a1, a2]
+      simpa using hR
+    obtain ⟨b1, b2, b3, b4, b5⟩ := call_step F (p.newInput c) hco a3 a4 hTL (rest.flatten ++ eofPiece) R hR' hne
+    rw [PSt.deliverRest]
+    generalize (p.newInput c).parseTokens F = r at b1 b2 b3 b4 b5
+    obtain ⟨st, ex, p''⟩ := r
+    simp only at b1 b2 b3 b4 b5 ⊢
+    have : (st == Status.err) = false := by cases st <;> simp_all
+    simp only [this, Bool.false_eq_true, ↓reduceIte]
+    exact ih p'' (st :: tr) b2 b3 b4 b5
+
+theorem resetAddNewInput_lex (p : PSt) (c : List Char) :
+    (p.resetAddNewInput c).lex.pending = c ∧ (p.resetAddNewInput c).lex.toLexCore = LexCore.init ∧
+      (p.resetAddNewInput c).lex.stream.isSome = true ∧ (p.resetAddNewInput c).lex.finished = false ∧
+      (p.resetAddNewInput c).co = none ∧ (p.resetAddNewInput c).exprs = [] := by
+  simp [PSt.resetAddNewInput, LexState.reset, LexState.addNextStream, LexState.promote, LexState.pending,
+    LexCore.init, Token.zero]
+
+theorem parseBy_pieces (F : Nat) (p : PSt) (c : List Char) (rest : List (List Char)) (R : Fin Unit × View)
+    (hR : runA (topLoop F) ⟨LexCore.init, c ++ (rest.flatten ++ eofPiece), [], true⟩ = R) (hne : R.1 ≠ .stop .err) :
+    (p.parseBy F .resetAdd (c :: rest)).1.status = statusOf R.1 ∧ (p.parseBy F .resetAdd (c :: rest)).1.exprs = R.2.exprs := by
+  obtain ⟨a1, a2, a3, a4, a5, a6⟩ := resetAddNewInput_lex p c
+  have hTL : TL F (progOf F (p.resetAddNewInput c).co) := by rw [a5]; exact .top F (Nat.le_refl _)
+  have hR' : runA (progOf F (p.resetAddNewInput c).co).erase
+      ⟨(p.resetAddNewInput c).lex.toLexCore, (p.resetAddNewInput c).lex.pending ++ (rest.flatten ++ eofPiece),
+        (p.resetAddNewInput c).exprs, true⟩ = R := by
+    rw [a1, a2, a5, a6]
+    simp only [progOf, erase_topLoop]
+    exact hR
+  obtain ⟨b1, b2, b3, b4, b5⟩ := call_step F (p.resetAddNewInput c) (by rw [a5]; simp) a3 a4 hTL _ R hR' hne
+  simp only [PSt.parseBy, PSt.start]
+  have hst : (((p.resetAddNewInput c).parseTokens F).1 == Status.err) = false := by
+    cases h : ((p.resetAddNewInput c).parseTokens F).1 <;> simp_all
+  simp only [hst, Bool.false_eq_true, ↓reduceIte]
+  exact deliverRest_eq F R hne rest _ _ b2 b3 b4 b5
+
+/-- **The call-by-call protocol computes the abstract parse of the whole text** — for every parser
+state `p` (any history, any suspended coroutine), every list of pieces, every per-iterator fuel `F`
+with which the parse of the whole text does not end in an error. -/
+theorem parseBy_abstract (F : Nat) (p : PSt) (cs : List (List Char)) (R : Fin Unit × View)
+    (hR : runA (topLoop F) ⟨LexCore.init, cs.flatten ++ eofPiece, [], true⟩ = R) (hne : R.1 ≠ .stop .err) :
+    (p.parseBy F .resetAdd cs).1.status = statusOf R.1 ∧ (p.parseBy F .resetAdd cs).1.exprs = R.2.exprs := by
+  cases cs with
+  | nil =>
+    have := parseBy_pieces F p [] [] R (by simpa using hR) hne
+    simpa [PSt.parseBy] using this
+  | cons c rest => exact parseBy_pieces F p c rest R (by simpa using hR) hne
+
 end ZygoVerif.Parser
